@@ -223,6 +223,18 @@ func Run(c *gen.Ctx) error {
 			"graph/b_reviews.graphqls": "type Review { id: ID! stars: Int! }\nextend type Product { reviews: [Review!]! }\nextend type Query { reviews: [Review!]! }\nextend type Mutation { addReview(stars: Int!): Review! }\n",
 			"graph/c_users.graphqls":   "type User { id: ID! }\nextend type Query { me: User }\nextend type Review { by: User }\n",
 		}})
+	// type names that differ in the schema and fall together as Go names, used as field types of two different
+	// non-root types: whichever name the generator gives each of them must not depend on the process
+	projects = append(projects, projectSpec{Name: "colliding-field-types", Config: wideConfig, Schema: map[string]string{"collide.graphqls": `type Query { h1: Holder1 h2: Holder2 }
+type Holder1 { a: order_item b: user_id c: Line_Total }
+type Holder2 { a: OrderItem b: UserID c: LineTotal }
+type order_item { x: Int }
+type OrderItem { y: Int }
+type user_id { x: Int }
+type UserID { y: Int }
+type Line_Total { x: Int }
+type LineTotal { y: Int }
+`}})
 	pr := r.Fork(1)
 	for i := 0; i < n; i++ {
 		s, _ := c17.Generate(pr)
